@@ -20,7 +20,9 @@ var checks = map[string]func(*Ctx){
 	"C01": checkC01,
 	"C02": checkC02,
 	"C03": checkC03,
+	"C04": checkC04,
 	"C06": checkC06,
+	"C07": checkC07,
 	"C12": checkC12,
 	"C09": checkC09,
 	"C11": checkC11,
